@@ -9,6 +9,7 @@ from .sym import (Exec, State, SymStr, ListV, TupV, EnumV, RefV, ClosV, IterV, O
                   BV, Outcome)
 from . import models as M
 from .models import BASE_MODELS, P, deref, as_str, hex_cases, fork_cases
+from .models2 import MODELS2
 from .smt import valid_char, in_ranges, table_tree, eq_alts, decide, Verdict
 
 
@@ -51,6 +52,18 @@ class Obligation:
         return d
 
 
+def realisable_unit(ctx, cs):
+    """constraints that make the code points cs (len >= 2) ONE extended grapheme cluster that the splitter keeps whole:
+    a base that is neither mark nor other, followed by grapheme extenders that are not marks (simplified UAX #29 shape)"""
+    O = ctx.oracle
+    res = [z3.Not(in_ranges(cs[0], O['mark_or_other'])), z3.Not(in_ranges(cs[0], O['ext_nonmark'])), cs[0] != BV(92, 32)]
+    res += [in_ranges(x, O['ext_nonmark']) for x in cs[1:]]
+    return res
+
+
+REALISABLE_NOTE = '; restricted to units of the shape base + non-mark grapheme extenders (reachable through the public API)'
+
+
 class Ctx:
     def __init__(self, mir_text, src_root, oracle, workdir, second=(), tier='quick'):
         self.mir = Mir(mir_text, src_root)
@@ -65,7 +78,7 @@ class Ctx:
         return self.known_counts.get(qid.split('[')[0], 0) + 8
 
     def new_exec(self, extra_models=()):
-        return Exec(self.mir, list(extra_models) + BASE_MODELS)
+        return Exec(self.mir, list(extra_models) + MODELS2 + BASE_MODELS)
 
     def finish(self, ob, ex, t0):
         ob.exec_s = time.time() - t0
@@ -162,23 +175,15 @@ def q11(ctx):
 
 
 @guarded
-def q11s(ctx, n, exclude=()):
-    """Q11s: escape_non_ascii_chars' closure on a string of n code points == concatenation of the per-code-point escapes"""
+def q11s(ctx, n, exclude=(), realisable=False):
+    """Q11s: Grapheme::escape_non_ascii_chars on a unit of n code points == concatenation of the per-code-point escapes"""
     ob = Obligation('Q11s[n=%d]' % n, q11s.__doc__)
     ob.domain = 'string of %d code points, every scalar value each; use_surrogate_pairs: bool' % n
     ob.bound = 'strings of exactly %d code points' % n
     cs = [z3.BitVec('c%d' % i, 32) for i in range(n)]
     surr = z3.Bool('surr')
     ex = ctx.new_exec()
-    fn = ctx.mir.one_fn(r'^grapheme::<impl at [^>]*>::escape_non_ascii_chars::\{closure#0\}$')
-    body = ctx.mir.fns[fn]
-    names = {}
-    for nm, pl in body.debug.items():
-        m = re.match(r'\(\*\(\(\*_1\)\.(\d+): &[\w:]+\)\)$', pl)
-        if m:
-            names[int(m.group(1))] = nm
-    if sorted(names.values()) != ['self', 'use_surrogate_pairs']:
-        raise Inconclusive('unexpected captures %s' % names)
+    fn = ctx.mir.one_fn(r'^grapheme::<impl at [^>]*>::escape_non_ascii_chars$')
     assume = [valid_char(c) for c in cs]
     # per-code-point counterexamples are reported by Q11; here only NEW (compositional) failures count
     for m in exclude:
@@ -186,11 +191,14 @@ def q11s(ctx, n, exclude=()):
             assume.append(z3.Not(z3.And(c == BV(m['c'], 32), surr == z3.BoolVal(m['surr']))))
     if exclude:
         ob.domain += '; minus the %d per-code-point counterexample(s) already reported by Q11' % len(exclude)
+    if realisable and n > 1:
+        assume += realisable_unit(ctx, cs)
+        ob.domain += REALISABLE_NOTE
+        ob.qid += '[realisable]'
     st = State(pc=list(assume))
-    vals = {'self': st.ref(Opaque('self')), 'use_surrogate_pairs': st.ref(surr)}
-    env = TupV([vals[names[i]] for i in range(2)], [names[i] for i in range(2)])
+    g = st.ref(grapheme_value(ctx, st, [cs]))
     t0 = time.time()
-    outs = ex.run_fn(st, fn, [st.ref(env), st.ref(SymStr(cs))])
+    outs = ex.run_fn(st, fn, [g, surr])
     ctx.finish(ob, ex, t0)
     ob.paths = len(outs)
     refs = [escape_reference(c, surr) for c in cs]
@@ -199,16 +207,19 @@ def q11s(ctx, n, exclude=()):
         if o.panic:
             bads.append(z3.And(*o.st.pc))
             continue
-        items = list(as_str(o.st, o.val).items)
+        chars = o.st.load(g).get('chars')
+        if not isinstance(chars, ListV) or len(chars.items) != 1:
+            raise Inconclusive('chars after escape_non_ascii_chars: %r' % (chars,))
+        items = list(as_str(o.st, chars.items[0]).items)
 
         def splits(pos, i):
             if i == n:
                 return z3.BoolVal(pos == len(items))
             ds = []
-            for g, ref in refs[i]:
+            for g_, ref in refs[i]:
                 L = len(ref)
                 if pos + L <= len(items):
-                    ds.append(z3.And(g, *[a == b for a, b in zip(items[pos:pos + L], ref)], splits(pos + L, i + 1)))
+                    ds.append(z3.And(g_, *[a == b for a, b in zip(items[pos:pos + L], ref)], splits(pos + L, i + 1)))
             return z3.Or(*ds) if ds else z3.BoolVal(False)
         bads.append(z3.And(*o.st.pc, z3.Not(splits(0, 0))))
         k = 'len%d' % len(items)
@@ -223,7 +234,8 @@ PRED = {'d': 'is_digit', 'w': 'is_word', 's': 'is_space'}
 
 
 def run_predicate(ctx, ex, name, c, st):
-    outs = ex.run_fn(st, ctx.mir.one_fn(r'^%s$' % name), [c])
+    fname = ctx.mir.one_fn(r'^%s$' % name)
+    outs = ex.run_pure(st, lambda s: ex.run_fn(s, fname, [c]))
     if len(outs) != 1 or outs[0].panic or not z3.is_bool(outs[0].val):
         raise Inconclusive('%s did not reduce to one Boolean term (%d paths)' % (name, len(outs)))
     return outs[0].val
@@ -291,22 +303,52 @@ def token_class(items):
     return 'literal'
 
 
-def exec_ladder(ctx, cs, flags, per_char, assume=None):
+def config_value(ctx, overrides=None, prefix='cfg_'):
+    """a RegExpConfig value: symbolic fields, except those given in overrides (name -> term)"""
+    fields = ctx.mir.structs.get('RegExpConfig')
+    if not fields:
+        raise Inconclusive('RegExpConfig field list not found in source')
+    vals = []
+    for f in fields:
+        if overrides and f in overrides:
+            vals.append(overrides[f])
+        else:
+            vals.append(z3.BitVec(prefix + f, 32) if f.startswith('minimum_') else z3.Bool(prefix + f))
+    return TupV(vals, fields, 'RegExpConfig')
+
+
+def cluster_value(ctx, st, graphemes, cfg_ref):
+    fields = ctx.mir.structs.get('GraphemeCluster')
+    if fields != ['graphemes', 'config']:
+        raise Inconclusive('GraphemeCluster layout changed: %s' % (fields,))
+    return TupV([ListV(graphemes), cfg_ref], fields, 'GraphemeCluster')
+
+
+def exec_ladder(ctx, cs, flags, per_char=False, assume=None):
+    """GraphemeCluster::convert_to_char_classes on a cluster of ONE grapheme holding ONE unit with the code points cs;
+    -> (exec, [(outcome, flattened code points of the unit(s) afterwards)])"""
     ex = ctx.new_exec()
     st = State(pc=list(assume) if assume is not None else [valid_char(c) for c in cs])
-    byname = dict(zip(FLAG_NAMES, flags))
-    if per_char:
-        fn = ctx.mir.one_fn(r'convert_to_char_classes::\{closure#0\}::\{closure#0\}$')
-        env = closure_env_from_debug(ctx.mir.fns[fn], st, byname)
-        return ex, ex.run_fn(st, fn, [st.ref(env), cs[0]])
-    fn = ctx.mir.one_fn(r'convert_to_char_classes::\{closure#0\}$')
-    env = closure_env_from_debug(ctx.mir.fns[fn], st, byname)
-    return ex, ex.run_fn(st, fn, [st.ref(env), st.ref(SymStr(cs))])
+    cfg = st.ref(config_value(ctx, dict(zip(FLAG_NAMES, flags))))
+    cl = st.ref(cluster_value(ctx, st, [grapheme_value(ctx, st, [cs])], cfg))
+    fn = ctx.mir.one_fn(r'^cluster::<impl at [^>]*>::convert_to_char_classes$')
+    res = []
+    for o in ex.run_fn(st, fn, [cl]):
+        if o.panic:
+            res.append((o, None))
+            continue
+        gs = o.st.load(cl).get('graphemes')
+        items = []
+        for g in gs.items:
+            for unit in deref(o.st, g).get('chars').items:
+                items += list(as_str(o.st, unit).items)
+        res.append((o, items))
+    return ex, res
 
 
 @guarded
-def q03a(ctx, n=1, exclude=()):
-    """Q03a/c: per-code-point class substitution == documented precedence over the regex crate's classes"""
+def q03a(ctx, n=1, exclude=(), realisable=False):
+    """Q03a/c: convert_to_char_classes: per-code-point class substitution == documented precedence over the regex crate's classes"""
     qid = 'Q03a' if n == 1 else 'Q03c[n=%d]' % n
     ob = Obligation(qid, q03a.__doc__ + (' (string of %d code points through the enclosing closure)' % n if n > 1 else ''))
     ob.domain = '%d code point(s): every scalar value each; all 2^6 subsets of the six conversion flags' % n
@@ -320,17 +362,20 @@ def q03a(ctx, n=1, exclude=()):
             assume.append(z3.Not(z3.And(c == BV(m['c0'], 32), *[f == z3.BoolVal(m[nm]) for f, nm in zip(flags, FLAG_NAMES)])))
     if exclude:
         ob.domain += '; minus the %d per-code-point counterexample(s) already reported by Q03a' % len(exclude)
+    if realisable and n > 1:
+        assume += realisable_unit(ctx, cs)
+        ob.domain += REALISABLE_NOTE
+        ob.qid += '[realisable]'
     t0 = time.time()
-    ex, outs = exec_ladder(ctx, cs, flags, per_char=(n == 1), assume=assume)
+    ex, outs = exec_ladder(ctx, cs, flags, assume=assume)
     ctx.finish(ob, ex, t0)
     ob.paths = len(outs)
     refs = [ladder_reference(ctx, c, flags) for c in cs]
     bads = []
-    for o in outs:
+    for o, items in outs:
         if o.panic:
             bads.append(z3.And(*o.st.pc))
             continue
-        items = list(as_str(o.st, o.val).items)
         if n == 1:
             k = token_class(items)
             ob.classes_seen[k] = ob.classes_seen.get(k, 0) + 1
@@ -387,7 +432,7 @@ def q03b(ctx):
 
 
 # =========================================================================== Q04  lower-casing for (?i)
-def make_to_lowercase_model(ctx):
+def make_to_lowercase_model(ctx, multi=False):
     L = []
     for k, v in ctx.oracle['lower1']:
         L.append((k, list(v)))
@@ -399,7 +444,21 @@ def make_to_lowercase_model(ctx):
         """table stub: std's str::to_lowercase on a ONE-code-point string (dumped from the build toolchain)"""
         s = as_str(st, a[0])
         if len(s.items) != 1:
-            raise Inconclusive('to_lowercase model covers one-code-point strings only')
+            if not multi:
+                raise Inconclusive('to_lowercase model covers one-code-point strings only')
+            # longer strings: per-code-point mapping, valid when no code point is U+03A3 (final-sigma rule); the
+            # caller assumes that and the path condition must imply it
+            cur = [(st, [])]
+            for x in s.items:
+                if not ex.must(st, x != BV(0x3A3, 32)):
+                    raise Inconclusive('to_lowercase on a longer string that may contain U+03A3')
+                nxt = []
+                for s1, acc in cur:
+                    r = m_to_lowercase(ex, s1, fr, callee, [s1.ref(SymStr([x]))], depth)
+                    for s2, low in r:
+                        nxt.append((s2, acc + list(low.items)))
+                cur = nxt
+            return [(s2, SymStr(acc)) for s2, acc in cur]
         x = s.items[0]
         cases = []
         maxlen = max(by_len) if by_len else 1
@@ -419,6 +478,85 @@ def make_to_lowercase_model(ctx):
     return m_to_lowercase
 
 
+LOW = z3.Function('low1', z3.BitVecSort(32), z3.BitVecSort(32))          # lower-case mapping when it is one code point
+KEEPS = z3.Function('low_is_one_cp', z3.BitVecSort(32), z3.BoolSort())   # does c.to_lowercase() have exactly one code point
+LOW_IS2 = z3.Function('low_is_two_cp', z3.BitVecSort(32), z3.BoolSort())
+LOWX = [z3.Function('lowx%d' % i, z3.BitVecSort(32), z3.BitVecSort(32)) for i in range(3)]
+
+
+def lowercase_lemmas(x):
+    """facts about std's one-code-point lower-casing that Q04b / the oracle dump establish for EVERY x; used as axioms
+    (instantiated at the input code points) by the obligations that treat the mapping as an uninterpreted function"""
+    y = LOW(x)
+    return [z3.Implies(KEEPS(x), z3.And(valid_char(y), y != BV(0x3A3, 32), z3.Or(z3.Not(KEEPS(y)), LOW(y) == y)))] + \
+           [z3.And(valid_char(f(x)), f(x) != BV(0x3A3, 32)) for f in LOWX]
+
+
+def concretize_lowercase(ctx, term):
+    """replace the uninterpreted lower-casing functions by the real tables (std's one-code-point dump)"""
+    L = [(k, list(v)) for k, v in ctx.oracle['lower1']]
+    v0 = z3.Var(0, z3.BitVecSort(32))
+    not1 = [k for k, v in L if len(v) != 1]
+    two = [k for k, v in L if len(v) == 2]
+    subs = [(LOW, table_tree(v0, [(k, BV(v[0], 32)) for k, v in L if len(v) == 1], v0)),
+            (KEEPS, z3.Not(in_ranges(v0, _to_ranges(not1))) if not1 else z3.BoolVal(True)),
+            (LOW_IS2, in_ranges(v0, _to_ranges(two)) if two else z3.BoolVal(False))]
+    for i in range(3):
+        subs.append((LOWX[i], table_tree(v0, [(k, BV(v[i], 32)) for k, v in L if len(v) > i and len(v) != 1], BV(0x61, 32))))
+    U = [(k, list(v)) for k, v in ctx.oracle.get('upper1', [])]
+    unot1 = [k for k, v in U if len(v) != 1]
+    utwo = [k for k, v in U if len(v) == 2]
+    subs += [(UP, table_tree(v0, [(k, BV(v[0], 32)) for k, v in U if len(v) == 1], v0)),
+             (UPK, z3.Not(in_ranges(v0, _to_ranges(unot1))) if unot1 else z3.BoolVal(True)),
+             (UP_IS2, in_ranges(v0, _to_ranges(utwo)) if utwo else z3.BoolVal(False))]
+    for i in range(3):
+        subs.append((UPX[i], table_tree(v0, [(k, BV(v[i], 32)) for k, v in U if len(v) > i and len(v) != 1], BV(0x41, 32))))
+    return z3.substitute_funs(term, *subs)
+
+
+UPK = z3.Function('up_is_one_cp', z3.BitVecSort(32), z3.BoolSort())
+UP_IS2 = z3.Function('up_is_two_cp', z3.BitVecSort(32), z3.BoolSort())
+UP = z3.Function('up1', z3.BitVecSort(32), z3.BitVecSort(32))
+UPX = [z3.Function('upx%d' % i, z3.BitVecSort(32), z3.BitVecSort(32)) for i in range(3)]
+
+
+def m_to_uppercase_abstract(ex, st, fr, callee, a, depth):
+    """abstraction: str::to_uppercase = per-code-point uninterpreted mapping (1, 2 or 3 code points; no context rules exist for upper-casing)"""
+    ex.uses_uf = True
+    s = as_str(st, a[0])
+    cur = [(st, [])]
+    for x in s.items:
+        nxt = []
+        for s1, acc in cur:
+            for s2, one in ex.branch(s1, UPK(x)):
+                if one:
+                    nxt.append((s2, acc + [UP(x)]))
+                else:
+                    for s3, two in ex.branch(s2, UP_IS2(x)):
+                        nxt.append((s3, acc + [f(x) for f in (UPX[:2] if two else UPX)]))
+        cur = nxt
+    return [(s2, SymStr(acc)) for s2, acc in cur]
+
+
+def m_to_lowercase_abstract(ex, st, fr, callee, a, depth):
+    """abstraction: str::to_lowercase = per-code-point uninterpreted mapping (1, 2 or 3 code points); sound for properties
+    that depend only on the lemmas in lowercase_lemmas (no U+03A3 in the input)"""
+    ex.uses_uf = True
+    s = as_str(st, a[0])
+    cur = [(st, [])]
+    for x in s.items:
+        nxt = []
+        for s1, acc in cur:
+            for s2, one in ex.branch(s1, KEEPS(x)):
+                if one:
+                    nxt.append((s2, acc + [LOW(x)]))
+                else:
+                    for s3, two in ex.branch(s2, LOW_IS2(x)):
+                        nxt.append((s3, acc + [f(x) for f in (LOWX[:2] if two else LOWX)]))
+        cur = nxt
+    return [(s2, SymStr(acc)) for s2, acc in cur]
+
+
 def _to_ranges(keys):
     rs = []
     for k in sorted(keys):
@@ -433,11 +571,23 @@ def orbit_rep(ctx, x):
     return table_tree(x, [(k, BV(rep, 32)) for k, rep in ctx.oracle['orbit']], x)
 
 
-def exec_lower(ctx, c):
-    ex = ctx.new_exec([(P(r'impl str>::to_lowercase$'), make_to_lowercase_model(ctx))])
-    fn = ctx.mir.one_fn(r'convert_for_case_insensitive_matching::\{closure#0\}$')
-    st = State(pc=[valid_char(c)])
-    return ex, fn, ex.run_fn(st, fn, [st.ref(TupV(())), st.ref(SymStr([c]))])
+def exec_lower(ctx, cs, st=None, ex=None):
+    """RegExp::convert_for_case_insensitive_matching(&mut vec![<one test case with code points cs>]);
+    -> (exec, [(outcome, code points of the test case afterwards)])"""
+    ex = ex or ctx.new_exec([(P(r'impl str>::to_lowercase$'), make_to_lowercase_model(ctx))])
+    fn = ctx.mir.one_fn(r'^regexp::<impl at [^>]*>::convert_for_case_insensitive_matching$')
+    st = st or State(pc=[valid_char(c) for c in cs])
+    v = st.ref(ListV([SymStr(cs)]))
+    res = []
+    for o in ex.run_fn(st, fn, [v]):
+        if o.panic:
+            res.append((o, None))
+            continue
+        lst = o.st.load(v)
+        if not isinstance(lst, ListV) or len(lst.items) != 1:
+            raise Inconclusive('test case list after lower-casing: %r' % (lst,))
+        res.append((o, list(as_str(o.st, lst.items[0]).items)))
+    return ex, res
 
 
 @guarded
@@ -450,14 +600,13 @@ def q04(ctx, idempotence=False):
     ob.classes_expected = ['lowered', 'kept']
     c = z3.BitVec('c', 32)
     t0 = time.time()
-    ex, fn, outs = exec_lower(ctx, c)
+    ex, outs = exec_lower(ctx, [c])
     bads = []
     paths = len(outs)
-    for o in outs:
+    for o, r in outs:
         if o.panic:
             bads.append(z3.And(*o.st.pc))
             continue
-        r = as_str(o.st, o.val).items
         kept = len(r) == 1 and r[0].eq(c)
         k = 'kept' if kept else 'lowered'
         ob.classes_seen[k] = ob.classes_seen.get(k, 0) + 1
@@ -469,11 +618,10 @@ def q04(ctx, idempotence=False):
         else:
             if len(r) != 1:
                 continue   # reported by Q04
-            outs2 = ex.run_fn(o.st, fn, [o.st.ref(TupV(())), o.st.ref(SymStr([r[0]]))])
+            _ex, outs2 = exec_lower(ctx, [r[0]], st=o.st, ex=ex)
             paths += len(outs2)
-            for o2 in outs2:
-                r2 = as_str(o2.st, o2.val).items
-                if len(r2) != 1:
+            for o2, r2 in outs2:
+                if o2.panic or len(r2) != 1:
                     bads.append(z3.And(*o2.st.pc))
                 else:
                     bads.append(z3.And(*o2.st.pc, r2[0] != r[0]))
@@ -500,14 +648,24 @@ def make_gc_models(ctx):
             (P(r'^GeneralCategory::is_other$'), m_is_other)]
 
 
+def m_graphemes_one_cluster(ex, st, fr, callee, a, depth):
+    """stub: UnicodeSegmentation::graphemes(s, true) yields s itself -- the input is ASSUMED to be one extended grapheme cluster"""
+    return IterV('list', items=(a[0],))
+
+
 def exec_split(ctx, cs, assume):
-    fields = ctx.mir.structs.get('RegExpConfig')
-    cfg = TupV([z3.BitVec(f, 32) if f.startswith('minimum_') else z3.Bool(f) for f in fields], fields, 'RegExpConfig')
-    ex = ctx.new_exec(make_gc_models(ctx))
-    fn = ctx.mir.one_fn(r'^cluster::<impl at [^>]*>::from::\{closure#0\}$')
+    ex = ctx.new_exec(make_gc_models(ctx) + [(P(r'^<str as UnicodeSegmentation>::graphemes$'), m_graphemes_one_cluster)])
+    fn = ctx.mir.one_fn(r'^cluster::<impl at [^>]*>::from$')
     st = State(pc=list(assume))
-    env = TupV([st.ref(cfg)])
-    return ex, ex.run_fn(st, fn, [st.ref(env), st.ref(SymStr(cs))])
+    cfg = st.ref(config_value(ctx))
+    outs = ex.run_fn(st, fn, [st.ref(SymStr(cs)), cfg])
+    res = []
+    for o in outs:
+        if o.panic:
+            res.append(o)
+            continue
+        res.append(Outcome(o.st, o.val.get('graphemes')))
+    return ex, res
 
 
 def split_units(st, val):
@@ -765,7 +923,7 @@ def same_cases(a, b):
 def concrete_eval(ctx, kind, inp):
     """run the encoding of one function on CONCRETE inputs; -> python value comparable with the native result"""
     def one(outs):
-        good = [o for o in outs]
+        good = list(outs)
         if len(good) != 1:
             raise Inconclusive('%d paths on concrete input' % len(good))
         return good[0]
@@ -782,13 +940,13 @@ def concrete_eval(ctx, kind, inp):
         return bool(v)
     if kind == 'class_tokens':
         s = inp['s']
-        ex, outs = exec_ladder(ctx, [BV(x, 32) for x in s], [z3.BoolVal(b) for b in inp['flags']], per_char=False)
-        o = one(outs)
-        return cps(as_str(o.st, o.val).items)
+        ex, outs = exec_ladder(ctx, [BV(x, 32) for x in s], [z3.BoolVal(b) for b in inp['flags']])
+        o, items = one(outs)
+        return cps(items)
     if kind == 'lower':
-        ex, fn, outs = exec_lower(ctx, BV(inp['c'], 32))
-        o = one(outs)
-        return cps(as_str(o.st, o.val).items)
+        ex, outs = exec_lower(ctx, [BV(inp['c'], 32)])
+        o, r = one(outs)
+        return cps(r)
     if kind == 'split':
         ex, outs = exec_split(ctx, [BV(x, 32) for x in inp['s']], [])
         o = one(outs)
@@ -833,6 +991,25 @@ def concrete_eval(ctx, kind, inp):
         buf = st.ref(SymStr(()))
         o = one(ex.run_fn(st, display_fmt_name(ctx, 'Grapheme'), [st.ref(g), buf]))
         return cps(o.st.load(buf).items)
+    if kind == 'cluster_repetitions':
+        ex = ctx.new_exec()
+        st = State()
+        over = {'minimum_repetitions': BV(inp['min_repetitions'], 32), 'minimum_substring_length': BV(inp['min_substring_length'], 32),
+                'is_capturing_group_enabled': z3.BoolVal(False), 'is_output_colorized': z3.BoolVal(False), 'is_verbose_mode_enabled': z3.BoolVal(False)}
+        cfg = st.ref(config_value(ctx, over))
+        gs = [grapheme_value(ctx, st, [[BV(c, 32)]], 1, 1, (False, False, False)) for c in inp['s']]
+        cl = st.ref(cluster_value(ctx, st, gs, cfg))
+        o = one(ex.run_fn(st, ctx.mir.one_fn(r'^cluster::<impl at [^>]*>::convert_repetitions$'), [cl]))
+        rows = []
+
+        def walk(g, depth):
+            chars, reps, mn, mx = grapheme_fields(o.st, g)
+            rows.append([depth, [cps(as_str(o.st, x).items) for x in chars.items], concrete(mn), concrete(mx)])
+            for r in reps.items:
+                walk(r, depth + 1)
+        for g in o.st.load(cl).get('graphemes').items:
+            walk(g, 0)
+        return rows
     raise Inconclusive('no concrete evaluator for ' + kind)
 
 
@@ -873,28 +1050,49 @@ def literal_text_alternatives(ctx, c, esc, surr):
     return alts
 
 
+CLASS_LETTERS = [ord(x) for x in 'dDsSwW']
+
+
 @guarded
-def q07e(ctx, n=1, exclude=()):
-    """Q07e: Grapheme::escape_regexp_symbols turns every unit into text that denotes exactly that literal for the regex crate"""
-    ob = Obligation('Q07e[n=%d]' % n, q07e.__doc__)
-    ob.domain = 'one unit of %d code point(s), every scalar value each%s; escape-non-ASCII and surrogate flags symbolic' % (
-        n, '' if n == 1 else ' except the backslash (multi-code-point units never contain one: Q07g)')
-    ob.bound = 'units of exactly %d code point(s); one unit per grapheme' % n
-    cs = [z3.BitVec('c%d' % i, 32) for i in range(n)]
-    esc, surr = z3.Bool('esc'), z3.Bool('surr')
-    assume = [valid_char(c) for c in cs]
-    if n > 1:
-        assume += [c != BV(92, 32) for c in cs]
-    for m in exclude:
-        for c in cs:
-            assume.append(c != BV(m['c0'], 32))
+def q07e(ctx, shape='c', exclude=(), realisable=False):
+    """Q07e: Grapheme::escape_regexp_symbols turns every unit into text that denotes exactly those literals for the regex crate"""
+    n = len(shape)
+    ob = Obligation('Q07e[%s]' % shape, q07e.__doc__)
+    ob.domain = ('one unit made of %d item(s) "%s": c = any scalar value%s, t = a shorthand-class token \\d \\D \\s \\S \\w \\W (kept verbatim); '
+                 'escape-non-ASCII and surrogate flags symbolic' % (n, shape, '' if n == 1 else ' except the backslash (multi-code-point units never contain a literal one: Q07g)'))
+    ob.bound = 'units of exactly this shape; one unit per grapheme'
+    vars_, cs, unit, assume = [], [], [], []
+    for i, k in enumerate(shape):
+        v = z3.BitVec(('c%d' if k == 'c' else 't%d') % i, 32)
+        vars_.append(v)
+        if k == 'c':
+            cs.append(v)
+            unit.append(v)
+            assume.append(valid_char(v))
+            if n > 1:
+                assume.append(v != BV(92, 32))
+            for m in exclude:
+                assume.append(v != BV(m['c0'], 32))
+        else:
+            unit += [BV(92, 32), v]
+            assume.append(z3.Or(*[v == BV(x, 32) for x in CLASS_LETTERS]))
     if exclude:
-        ob.domain += '; minus the %d code point(s) already reported for n = 1' % len(exclude)
+        ob.domain += '; minus the %d code point(s) already reported for the shape "c"' % len(exclude)
+    if realisable and shape.count('c') > 1 and 't' not in shape:
+        assume += realisable_unit(ctx, cs)
+        ob.domain += REALISABLE_NOTE
+        ob.qid += '[realisable]'
+    esc, surr = z3.Bool('esc'), z3.Bool('surr')
     t0 = time.time()
-    ex, g, outs = exec_escape_symbols(ctx, [cs], esc, surr, assume)
+    ex, g, outs = exec_escape_symbols(ctx, [unit], esc, surr, assume)
     ctx.finish(ob, ex, t0)
     ob.paths = len(outs)
-    alts = [literal_text_alternatives(ctx, c, esc, surr) for c in cs]
+    alts = []
+    for i, k in enumerate(shape):
+        if k == 'c':
+            alts.append(literal_text_alternatives(ctx, vars_[i], esc, surr))
+        else:
+            alts.append([(z3.BoolVal(True), [BV(92, 32), vars_[i]])])
     bads = []
     for o in outs:
         if o.panic:
@@ -919,11 +1117,59 @@ def q07e(ctx, n=1, exclude=()):
                     ds.append(z3.And(gd, *[a == b for a, b in zip(items[pos:pos + L], ref)], splits(pos + L, i + 1)))
             return z3.Or(*ds) if ds else z3.BoolVal(False)
         bads.append(z3.And(*o.st.pc, z3.Not(splits(0, 0))))
-    ob.classes_expected = ['len1', 'len2'] if n == 1 else []
+    ob.classes_expected = ['len1', 'len2'] if shape == 'c' else []
     ctx.check_classes(ob)
-    ob.verdict = decide(ob.qid, assume + ob.defs, z3.Or(*bads), cs + [esc, surr], all_sat=True, max_models=ctx.cap('Q07e'),
+    ob.verdict = decide(ob.qid, assume + ob.defs, z3.Or(*bads), vars_ + [esc, surr], all_sat=True, max_models=ctx.cap('Q07e'),
+                        second=ctx.second, workdir=ctx.workdir, second_timeout_s=getattr(ctx, 'second_timeout', 60), block_vars=vars_)
+    return ob
+
+
+# =========================================================================== Q11k  char_count contract
+@guarded
+def q11k(ctx, n=1, realisable=False):
+    """Q11k: Grapheme::char_count(escaped) == number of characters of the unit's (escaped) text"""
+    ob = Obligation('Q11k[n=%d]' % n, q11k.__doc__)
+    ob.domain = 'one unit of %d code point(s), every scalar value each; is_non_ascii_char_escaped: bool' % n
+    ob.bound = 'units of exactly %d code point(s)' % n
+    cs = [z3.BitVec('c%d' % i, 32) for i in range(n)]
+    esc = z3.Bool('esc')
+    ex = ctx.new_exec()
+    fn = ctx.mir.one_fn(r'^grapheme::<impl at [^>]*>::char_count$')
+    assume = [valid_char(c) for c in cs]
+    if realisable and n > 1:
+        assume += realisable_unit(ctx, cs)
+        ob.domain += REALISABLE_NOTE
+        ob.qid += '[realisable]'
+    st = State(pc=list(assume))
+    g = st.ref(grapheme_value(ctx, st, [cs]))
+    t0 = time.time()
+    outs = ex.run_fn(st, fn, [g, esc])
+    ctx.finish(ob, ex, t0)
+    ob.paths = len(outs)
+
+    def esc_len(c):
+        return z3.If(z3.ULT(c, BV(0x80, 32)), BV(1, 64), z3.If(z3.ULT(c, BV(0x100, 32)), BV(6, 64),
+                     z3.If(z3.ULT(c, BV(0x1000, 32)), BV(7, 64), z3.If(z3.ULT(c, BV(0x10000, 32)), BV(8, 64),
+                           z3.If(z3.ULT(c, BV(0x100000, 32)), BV(9, 64), BV(10, 64))))))
+    want_esc = BV(0, 64)
+    for c in cs:
+        want_esc = want_esc + esc_len(c)
+    want = z3.If(esc, want_esc, BV(n, 64))
+    bads = []
+    for o in outs:
+        if o.panic or not is_bv(o.val):
+            bads.append(z3.And(*o.st.pc))
+            continue
+        k = 'count'
+        ob.classes_seen[k] = ob.classes_seen.get(k, 0) + 1
+        bads.append(z3.And(*o.st.pc, o.val != want))
+    ob.verdict = decide(ob.qid, assume + ob.defs, z3.Or(*bads), cs + [esc], all_sat=True, max_models=ctx.cap('Q11k'),
                         second=ctx.second, workdir=ctx.workdir, second_timeout_s=getattr(ctx, 'second_timeout', 60), block_vars=cs)
     return ob
+
+
+def is_bv(v):
+    return isinstance(v, z3.BitVecRef)
 
 
 # =========================================================================== Q15  Component rendering: colour only adds SGR codes
@@ -1124,4 +1370,383 @@ def q15g(ctx, shape):
     ob.paths = npaths
     ob.verdict = decide(ob.qid, asm + ob.defs, z3.Or(*bads) if bads else z3.BoolVal(False), pvars + [minv, maxv, capture, verbose],
                         second=ctx.second, workdir=ctx.workdir, second_timeout_s=getattr(ctx, 'second_timeout', 60))
+    return ob
+
+
+# =========================================================================== Q10p  test-case preprocessing of RegExp::from
+STOP = '@stop-after-preprocessing'
+
+
+def m_stop(ex, st, fr, callee, a, depth):
+    """cut: RegExp::grapheme_clusters is where preprocessing of the test cases ends; the path stops here"""
+    return Outcome(st, None, panic=STOP)
+
+
+def exec_preprocess(ctx, ex, st, cases, cfg_ref):
+    """run RegExp::from(&mut cases, &config) up to the call of grapheme_clusters; -> [(state, resulting list of code-point lists)]"""
+    fn = ctx.mir.one_fn(r'^regexp::<impl at [^>]*>::from$')
+    v = st.ref(ListV([SymStr(c) for c in cases]))
+    res = []
+    for o in ex.run_fn(st, fn, [v, cfg_ref]):
+        if o.panic != STOP:
+            raise Inconclusive('RegExp::from ended before grapheme_clusters: %r' % (o.panic,))
+        lst = o.st.load(v)
+        res.append((o.st, [list(as_str(o.st, x).items) for x in lst.items]))
+    return res
+
+
+def same_lists(a, b):
+    if len(a) != len(b) or any(len(x) != len(y) for x, y in zip(a, b)):
+        return z3.BoolVal(False)
+    eqs = [p == q for x, y in zip(a, b) for p, q in zip(x, y)]
+    return z3.And(*eqs) if eqs else z3.BoolVal(True)
+
+
+@guarded
+def q10p(ctx, lens=(1, 1)):
+    """Q10p: the test-case preprocessing at the head of RegExp::from is idempotent, order-independent and duplicate-insensitive"""
+    ob = Obligation('Q10p[%s]' % ','.join(map(str, lens)), q10p.__doc__)
+    ob.domain = ('%d test cases of %s code point(s), every scalar value each except U+03A3 (final-sigma context is not modelled); '
+                 'case-insensitive flag symbolic, other settings arbitrary' % (len(lens), '/'.join(map(str, lens))))
+    ob.bound = 'lists of %d test cases with exactly these lengths (+ one duplicate for the duplicate clause)' % len(lens)
+    cases = [[z3.BitVec('s%d_%d' % (i, j), 32) for j in range(n)] for i, n in enumerate(lens)]
+    allv = [v for c in cases for v in c]
+    assume = [z3.And(valid_char(v), v != BV(0x3A3, 32)) for v in allv]
+    ex = ctx.new_exec([(P(r'impl str>::to_lowercase$'), m_to_lowercase_abstract),
+                       (P(r"^RegExp::<'_>::grapheme_clusters$"), m_stop)])
+    for v in allv:
+        assume += lowercase_lemmas(v)
+    ob.extra['lemmas_used'] = ('one-code-point lower-casing is idempotent where it keeps one code point (Q04b, decided on the real table); '
+                               'lower-casing never produces U+03A3; to_lowercase of a string without U+03A3 is the per-code-point mapping')
+    ci = z3.Bool('cfg_is_case_insensitive_matching')
+    st0 = State(pc=list(assume))
+    cfg = st0.ref(config_value(ctx))
+    t0 = time.time()
+    bads = []
+    npaths = 0
+    for s1, L1 in exec_preprocess(ctx, ex, st0, cases, cfg):
+        npaths += 1
+        k = 'len%d' % len(L1)
+        ob.classes_seen[k] = ob.classes_seen.get(k, 0) + 1
+        # (i) a second build() on the same builder sees the preprocessed list: it must be a fixpoint
+        for s2, L2 in exec_preprocess(ctx, ex, s1.fork(), L1, cfg):
+            npaths += 1
+            bads.append(z3.And(*s2.pc, z3.Not(same_lists(L1, L2))))
+        # (ii) any other order of the input list gives the same list
+        if len(cases) > 1:
+            for s2, L2 in exec_preprocess(ctx, ex, s1.fork(), cases[::-1], cfg):
+                npaths += 1
+                bads.append(z3.And(*s2.pc, z3.Not(same_lists(L1, L2))))
+        # (iii) a duplicated test case changes nothing
+        for s2, L2 in exec_preprocess(ctx, ex, s1.fork(), cases + [cases[0]], cfg):
+            npaths += 1
+            bads.append(z3.And(*s2.pc, z3.Not(same_lists(L1, L2))))
+    ctx.finish(ob, ex, t0)
+    ob.paths = npaths
+    bad = z3.Or(*bads)
+    ob.verdict = decide(ob.qid, assume + ob.defs, bad, allv + [ci], logic='QF_UFBV',
+                        second=ctx.second, workdir=ctx.workdir, second_timeout_s=getattr(ctx, 'second_timeout', 60))
+    if ob.verdict.result == 'sat':
+        # the abstraction admits a counterexample: decide the same formula with the REAL lower-casing table
+        ob.extra['abstract_counterexample'] = ob.verdict.models[:1]
+        real = [concretize_lowercase(ctx, t) for t in ([valid_char(v) for v in allv] + [v != BV(0x3A3, 32) for v in allv] + ob.defs + [bad])]
+        ob.verdict = decide(ob.qid, real[:-1], real[-1], allv + [ci], all_sat=True, max_models=ctx.cap('Q10p'), logic='QF_BV',
+                            timeout_s=600, block_vars=allv)
+        ob.extra['refined_with_real_table'] = True
+    return ob
+
+
+# =========================================================================== Q07i  indent_regexp: total and content-preserving
+@guarded
+def q07i(ctx, k=2, m=2):
+    """Q07i: indent_regexp (verbose-mode indentation) never panics and only prepends two-space indents to the non-empty lines"""
+    ob = Obligation('Q07i[lines=%d,len=%d]' % (k, m), q07i.__doc__)
+    ob.domain = ('%d lines of %d arbitrary code points each (no line breaks inside a line; every code point may also make the line '
+                 'shorter by being absent: lengths 0..%d); is_start_anchor_disabled symbolic, other settings arbitrary' % (k, m, m))
+    ob.bound = 'at most %d lines of at most %d code points' % (k, m)
+    ex = ctx.new_exec()
+    fn = ctx.mir.one_fn(r'^indent_regexp$')
+    bads, allv = [], []
+    npaths = 0
+    t0 = time.time()
+    import itertools
+    sel = z3.BitVec('shape', 32)      # which combination of line lengths the counterexample uses
+    combos = []
+    for lens in itertools.product(range(0, m + 1), repeat=k):
+        if all(n == 0 for n in lens) and k > 1:
+            continue
+        combos.append(lens)
+        here = sel == BV(len(combos) - 1, 32)
+        mark = len(bads)
+        lines = [[z3.BitVec('l%d_%d' % (i, j), 32) for j in range(n)] for i, n in enumerate(lens)]
+        vs = [v for l in lines for v in l]
+        for v in vs:
+            if not any(v.eq(w) for w in allv):
+                allv.append(v)
+        assume = [z3.And(valid_char(v), v != BV(10, 32), v != BV(13, 32)) for v in vs]
+        text = []
+        for i, l in enumerate(lines):
+            if i:
+                text.append(BV(10, 32))
+            text += l
+        st = State(pc=list(assume))
+        cfg = st.ref(config_value(ctx))
+        n_cut = len(ex.cut_panics)
+        outs = ex.run_fn(st, fn, [SymStr(text), cfg])
+        for pc, where, msg in ex.cut_panics[n_cut:]:
+            bads.append(z3.And(*pc))
+            ob.classes_seen['arithmetic-panic-edge'] = ob.classes_seen.get('arithmetic-panic-edge', 0) + 1
+        want_lines = [l for l in lines if l]
+        for o in outs:
+            npaths += 1
+            if o.panic:
+                bads.append(z3.And(*o.st.pc))
+                ob.classes_seen['panic'] = ob.classes_seen.get('panic', 0) + 1
+                continue
+            out = list(as_str(o.st, o.val).items)
+            # parse: for each expected line, 2j spaces then the line, separated by \n
+            pos, okc = 0, []
+            shape_ok = True
+            for i, l in enumerate(want_lines):
+                if i:
+                    if pos >= len(out) or concrete(out[pos]) != 10:
+                        shape_ok = False
+                        break
+                    pos += 1
+                # indentation: concrete spaces produced by "  ".repeat(n); the line itself follows
+                rest_needed = sum(len(x) for x in want_lines[i:]) + (len(want_lines) - i - 1)
+                while len(out) - pos > rest_needed and concrete(out[pos]) == 32 and not (l and out[pos].eq(l[0])):
+                    pos += 1
+                if pos + len(l) > len(out):
+                    shape_ok = False
+                    break
+                okc += [a == b for a, b in zip(out[pos:pos + len(l)], l)]
+                pos += len(l)
+            if shape_ok and pos != len(out):
+                shape_ok = False
+            ob.classes_seen['returned'] = ob.classes_seen.get('returned', 0) + 1
+            if not shape_ok:
+                bads.append(z3.And(*o.st.pc))
+            elif okc:
+                bads.append(z3.And(*o.st.pc, z3.Not(z3.And(*okc))))
+        bads[mark:] = [z3.And(here, b) for b in bads[mark:]]
+    ob.extra['line_length_combinations'] = [list(c) for c in combos]
+    ctx.finish(ob, ex, t0)
+    ob.paths = npaths
+    ob.classes_expected = ['returned']
+    ctx.check_classes(ob)
+    cfgvars = [z3.Bool('cfg_is_start_anchor_disabled')]
+    ob.verdict = decide(ob.qid, ob.defs + [z3.ULT(sel, BV(len(combos), 32))], z3.Or(*bads) if bads else z3.BoolVal(False),
+                        allv + cfgvars + [sel], all_sat=True, max_models=ctx.cap('Q07i'), second=ctx.second, workdir=ctx.workdir,
+                        second_timeout_s=getattr(ctx, 'second_timeout', 60), block_vars=[sel])
+    return ob
+
+
+# =========================================================================== Q04n  lower-casing of longer test cases
+ORB = z3.Function('fold_orbit', z3.BitVecSort(32), z3.BitVecSort(32))
+
+
+def concretize_all(ctx, term):
+    t = concretize_lowercase(ctx, term)
+    v0 = z3.Var(0, z3.BitVecSort(32))
+    return z3.substitute_funs(t, (ORB, table_tree(v0, [(k, BV(rep, 32)) for k, rep in ctx.oracle['orbit']], v0)))
+
+
+@guarded
+def q04n(ctx, n=2, exclude=()):
+    """Q04n: lower-casing keeps a test case of n code points inside the regex crate's folding orbit, position by position"""
+    ob = Obligation('Q04n[n=%d]' % n, q04n.__doc__)
+    ob.domain = ('one test case of %d code points, every scalar value each except U+03A3 (final-sigma context is not modelled) and '
+                 'the %d code point(s) already reported by Q04' % (n, len(exclude)))
+    ob.bound = 'test cases of exactly %d code points' % n
+    cs = [z3.BitVec('c%d' % i, 32) for i in range(n)]
+    assume = [z3.And(valid_char(c), c != BV(0x3A3, 32)) for c in cs]
+    for m in exclude:
+        assume += [c != BV(m['c'], 32) for c in cs]
+    # lemma decided by Q04 on the real tables: outside the reported code points, a kept-length lower-casing stays in the orbit
+    for c in cs:
+        assume += lowercase_lemmas(c)
+        assume.append(z3.Implies(KEEPS(c), ORB(LOW(c)) == ORB(c)))
+    ex = ctx.new_exec([(P(r'impl str>::to_lowercase$'), m_to_lowercase_abstract)])
+    ex.uses_uf = True
+    st = State(pc=list(assume))
+    t0 = time.time()
+    ex, outs = exec_lower(ctx, cs, st=st, ex=ex)
+    ctx.finish(ob, ex, t0)
+    ob.paths = len(outs)
+    bads = []
+    for o, r in outs:
+        if o.panic:
+            bads.append(z3.And(*o.st.pc))
+            continue
+        k = 'kept' if len(r) == n and all(a.eq(b) for a, b in zip(r, cs)) else 'lowered'
+        ob.classes_seen[k] = ob.classes_seen.get(k, 0) + 1
+        if len(r) != n:
+            bads.append(z3.And(*o.st.pc))
+        else:
+            bads.append(z3.And(*o.st.pc, z3.Not(z3.And(*[ORB(a) == ORB(b) for a, b in zip(r, cs)]))))
+    ob.classes_expected = ['kept', 'lowered']
+    ctx.check_classes(ob)
+    ob.extra['lemmas_used'] = ('Q04 (this run, real tables): for every code point outside its reported set, a lower-casing that keeps one code '
+                               'point stays in the folding orbit; to_lowercase of a string without U+03A3 is the per-code-point mapping')
+    bad = z3.Or(*bads)
+    ob.verdict = decide(ob.qid, assume + ob.defs, bad, cs, logic='QF_UFBV', second=ctx.second, workdir=ctx.workdir,
+                        second_timeout_s=getattr(ctx, 'second_timeout', 60))
+    if ob.verdict.result == 'sat':
+        ob.extra['abstract_counterexample'] = ob.verdict.models[:1]
+        base = [z3.And(valid_char(c), c != BV(0x3A3, 32)) for c in cs]
+        for m in exclude:
+            base += [c != BV(m['c'], 32) for c in cs]
+        real = [concretize_all(ctx, t) for t in (base + ob.defs + [bad])]
+        ob.verdict = decide(ob.qid, real[:-1], real[-1], cs, all_sat=True, max_models=ctx.cap('Q04n'), logic='QF_BV', timeout_s=900,
+                            block_vars=cs)
+        ob.extra['refined_with_real_table'] = True
+    return ob
+
+
+@guarded
+def q04p(ctx, lens=(1, 1), exclude=()):
+    """Q04p: the preprocessing of RegExp::from neither loses nor invents a test case: every input has a case variant (regex simple folding) in the list that reaches the automaton, and vice versa"""
+    ob = Obligation('Q04p[%s]' % ','.join(map(str, lens)), q04p.__doc__)
+    ob.domain = ('%d test cases of %s code point(s), every scalar value each except U+03A3 and the %d code point(s) reported by Q04; '
+                 'case-insensitive matching ON and OFF (symbolic), other settings arbitrary' % (len(lens), '/'.join(map(str, lens)), len(exclude)))
+    ob.bound = 'lists of %d test cases with exactly these lengths' % len(lens)
+    cases = [[z3.BitVec('s%d_%d' % (i, j), 32) for j in range(n)] for i, n in enumerate(lens)]
+    allv = [v for c in cases for v in c]
+    base = [z3.And(valid_char(v), v != BV(0x3A3, 32)) for v in allv]
+    for m in exclude:
+        base += [v != BV(m['c'], 32) for v in allv]
+    assume = list(base)
+    for v in allv:
+        assume += lowercase_lemmas(v)
+        assume.append(z3.Implies(KEEPS(v), ORB(LOW(v)) == ORB(v)))
+    ex = ctx.new_exec([(P(r'impl str>::to_lowercase$'), m_to_lowercase_abstract), (P(r'impl str>::to_uppercase$'), m_to_uppercase_abstract),
+                       (P(r"^RegExp::<'_>::grapheme_clusters$"), m_stop)])
+    ex.uses_uf = True
+    ci = z3.Bool('cfg_is_case_insensitive_matching')
+    st0 = State(pc=list(assume))
+    cfg = st0.ref(config_value(ctx))
+    t0 = time.time()
+    bads = []
+    npaths = 0
+
+    def variant(a, b, folded):
+        if len(a) != len(b):
+            return z3.BoolVal(False)
+        if not a:
+            return z3.BoolVal(True)
+        return z3.And(*[z3.If(folded, ORB(x) == ORB(y), x == y) for x, y in zip(a, b)])
+    for s1, L1 in exec_preprocess(ctx, ex, st0, cases, cfg):
+        npaths += 1
+        k = 'len%d' % len(L1)
+        ob.classes_seen[k] = ob.classes_seen.get(k, 0) + 1
+        every_in = z3.And(*[z3.Or(*[variant(c, t, ci) for t in L1]) if L1 else z3.BoolVal(False) for c in cases])
+        every_out = z3.And(*[z3.Or(*[variant(c, t, ci) for c in cases]) for t in L1]) if L1 else z3.BoolVal(True)
+        bads.append(z3.And(*s1.pc, z3.Not(z3.And(every_in, every_out))))
+    ctx.finish(ob, ex, t0)
+    ob.paths = npaths
+    ob.extra['lemmas_used'] = ('Q04 (this run, real tables): outside its reported code points a kept-length lower-casing stays in the folding orbit; '
+                               'Q04b: idempotence; per-code-point case mapping for strings without U+03A3')
+    bad = z3.Or(*bads)
+    ob.verdict = decide(ob.qid, assume + ob.defs, bad, allv + [ci], logic='QF_UFBV', second=ctx.second, workdir=ctx.workdir,
+                        second_timeout_s=getattr(ctx, 'second_timeout', 60))
+    if ob.verdict.result == 'sat':
+        ob.extra['abstract_counterexample'] = ob.verdict.models[:1]
+        real = [concretize_all(ctx, t) for t in (base + ob.defs + [bad])]
+        ob.verdict = decide(ob.qid, real[:-1], real[-1], allv + [ci], all_sat=True, max_models=ctx.cap('Q04p'), logic='QF_BV',
+                            timeout_s=900, block_vars=allv)
+        ob.extra['refined_with_real_table'] = True
+    return ob
+
+
+# =========================================================================== Q05r / Q13r  repetition conversion of one cluster
+def grapheme_fields(st, g):
+    g = deref(st, g)
+    return (g.get('chars'), g.get('repetitions'), g.get('min'), g.get('max'))
+
+
+def expand_grapheme(st, g, checks, minrep, minlen, depth=0):
+    """-> (units of ONE repetition as denoted by chars, units denoted by the nested repetitions or None, count);
+    appends the threshold conditions of every quantified (sub-)unit to `checks`"""
+    chars, reps, mn, mx = grapheme_fields(st, g)
+    own = [tuple(as_str(st, x).items) for x in chars.items]
+    k = concrete(mn)
+    if k is None or concrete(mx) != k or k < 1:
+        raise Inconclusive('the cluster converter produced a symbolic or ranged count')
+    if k > 1:
+        # C13: count strictly greater than minimum_repetitions, unit at least minimum_substring_length graphemes long
+        checks.append(z3.UGT(BV(k, 32), minrep))
+        checks.append(z3.UGE(BV(len(own), 32), minlen))
+    nested = None
+    if reps.items:
+        nested = []
+        for r in reps.items:
+            o, n_, rk = expand_grapheme(st, r, checks, minrep, minlen, depth + 1)
+            nested += (n_ if n_ is not None else o) * rk
+    return own, nested, k
+
+
+@guarded
+def q05r(ctx, n=4, clause='notation', letters=False):
+    """Q05r/Q13r: GraphemeCluster::convert_repetitions is a notation change (Q05r) that honours both thresholds (Q13r)"""
+    name = {'notation': 'Q05r', 'thresholds': 'Q13r'}[clause]
+    ob = Obligation('%s[n=%d]%s' % (name, n, '[letters]' if letters else ''),
+                    {'notation': 'Q05r: expanding every {k} unit of the converted cluster (and its nested rendering) gives back the original grapheme sequence',
+                     'thresholds': 'Q13r: every quantified unit of the converted cluster, at any nesting depth, has a count > minimum_repetitions and spans >= minimum_substring_length graphemes'}[clause])
+    ob.domain = ('a cluster of %d one-code-point graphemes, %s each (all equality patterns); minimum_repetitions and '
+                 'minimum_substring_length: every u32 >= 1; other settings arbitrary' % (n, 'a..z' if letters else 'every scalar value'))
+    ob.bound = 'clusters of exactly %d graphemes, one code point each' % n
+    cs = [z3.BitVec('g%d' % i, 32) for i in range(n)]
+    assume = [valid_char(c) for c in cs]
+    if letters:
+        assume += [z3.And(z3.UGE(c, BV(0x61, 32)), z3.ULE(c, BV(0x7A, 32))) for c in cs]
+    ex = ctx.new_exec()
+    st = State(pc=list(assume))
+    cfgv = config_value(ctx)
+    minrep, minlen = cfgv.get('minimum_repetitions'), cfgv.get('minimum_substring_length')
+    st.pc += [minrep != 0, minlen != 0]
+    assume += [minrep != 0, minlen != 0]
+    cfg = st.ref(cfgv)
+    flags = (cfgv.get('is_capturing_group_enabled'), cfgv.get('is_output_colorized'), cfgv.get('is_verbose_mode_enabled'))
+    gs = [grapheme_value(ctx, st, [[c]], 1, 1, flags) for c in cs]
+    cl = st.ref(cluster_value(ctx, st, gs, cfg))
+    fn = ctx.mir.one_fn(r'^cluster::<impl at [^>]*>::convert_repetitions$')
+    t0 = time.time()
+    outs = ex.run_fn(st, fn, [cl])
+    ctx.finish(ob, ex, t0)
+    ob.paths = len(outs)
+    orig = [(c,) for c in cs]
+    bads = []
+    for o in outs:
+        if o.panic:
+            bads.append(z3.And(*o.st.pc))
+            ob.classes_seen['panic'] = ob.classes_seen.get('panic', 0) + 1
+            continue
+        res = o.st.load(cl).get('graphemes')
+        flat, ok_terms, quantified = [], [], 0
+        thr_terms = []
+        shape_bad = False
+        for g in res.items:
+            own, nested, k = expand_grapheme(o.st, g, thr_terms, minrep, minlen)
+            if nested is not None:
+                # the nested rendering must denote the same units as chars
+                if len(nested) != len(own) or any(len(a) != len(b) for a, b in zip(nested, own)):
+                    shape_bad = True
+                    break
+                ok_terms += [x == y for a, b in zip(nested, own) for x, y in zip(a, b)]
+            flat += own * k
+            if k > 1:
+                quantified += 1
+        cls = 'quantified=%d' % quantified
+        ob.classes_seen[cls] = ob.classes_seen.get(cls, 0) + 1
+        if shape_bad or len(flat) != len(orig) or any(len(a) != len(b) for a, b in zip(flat, orig)):
+            bads.append(z3.And(*o.st.pc))
+            continue
+        ok_terms += [x == y for a, b in zip(flat, orig) for x, y in zip(a, b)]
+        goal = ok_terms if clause == 'notation' else thr_terms
+        bads.append(z3.And(*o.st.pc, z3.Not(z3.And(*goal))) if goal else z3.BoolVal(False))
+    ob.classes_expected = ['quantified=0', 'quantified=1']
+    ctx.check_classes(ob)
+    ob.verdict = decide(ob.qid, assume + ob.defs, z3.Or(*bads), cs + [minrep, minlen], all_sat=True, max_models=ctx.cap(name),
+                        second=ctx.second, workdir=ctx.workdir, second_timeout_s=getattr(ctx, 'second_timeout', 60), block_vars=cs)
     return ob
